@@ -238,6 +238,14 @@ class Guarded:
         except Runaway as e:
             return 'runaway', {'what': f'a call into the implementation {e}; stuck in {e.where}', 'where': e.where,
                                'stack': e.stack, 'job': repr(arg)[:1500]}, time.time() - t0
+        except Exception as e:  # noqa: BLE001
+            # replays catch what the calls they make raise; an exception of the implementation that still escapes
+            # a job was raised while the harness only read the document (see raised_in_repo)
+            where = raised_in_repo(e)
+            if not where:
+                raise
+            return 'unobservable', {'what': f'the document could not be read any more: {type(e).__name__}: {e} (raised in {where})',
+                                    'where': where, 'stack': traceback.format_exception(e)[-6:], 'job': repr(arg)[:1500]}, time.time() - t0
 
 
 def gmap(pool: Any, rep: 'Reporter', fn: Any, jobs: Any, seconds: Optional[float] = None) -> Iterable[Any]:
@@ -249,6 +257,8 @@ def gmap(pool: Any, rep: 'Reporter', fn: Any, jobs: Any, seconds: Optional[float
         rep.cov['slowest_pool_job_s'] = worst
         if status == 'ok':
             yield val
+        elif status == 'unobservable':
+            rep.violation(f'{rep.prop}/unobservable/{val["where"]}', val)       # (the other jobs go on)
         else:
             rep.violation(f'{rep.prop}/call-did-not-return/{val["where"]}', val)
             return
